@@ -33,6 +33,7 @@ type e2eScript struct {
 	gaps   []time.Duration // pause after each command
 	dropAt int             // drop the link after this command index (-1 never)
 	mode   string          // fresh | resume-continue | resume-fullresync
+	pre    []int           // keep-alive newlines in front of each command
 }
 
 func (s e2eScript) String() string {
@@ -43,6 +44,9 @@ func (s e2eScript) String() string {
 			a = append(a, string(x))
 		}
 		p := strings.Join(a, " ") + fmt.Sprintf("+%v", s.gaps[i])
+		if i < len(s.pre) && s.pre[i] > 0 {
+			p = fmt.Sprintf("%dxLF ", s.pre[i]) + p
+		}
 		if i == s.dropAt {
 			p += "+DROP"
 		}
@@ -81,6 +85,9 @@ func drawE2E(t *rapid.T) e2eScript {
 	if rapid.Bool().Draw(t, "drop") {
 		s.dropAt = rapid.IntRange(1, len(s.cmds)-2).Draw(t, "dropAt")
 	}
+	for range s.cmds {
+		s.pre = append(s.pre, rapid.SampledFrom([]int{0, 0, 0, 1, 2}).Draw(t, "keepalive"))
+	}
 	return s
 }
 
@@ -89,6 +96,9 @@ func runE2E(s e2eScript, id int, loader bool) (sig, msg string) {
 	var stream bytes.Buffer
 	ends := make([]int, len(s.cmds))
 	for i, c := range s.cmds {
+		if i < len(s.pre) {
+			stream.Write(bytes.Repeat([]byte("\n"), s.pre[i])) // keep-alive newlines count as stream bytes
+		}
 		encodeCmd(&stream, c)
 		ends[i] = stream.Len()
 	}
@@ -292,6 +302,45 @@ func runE2E(s e2eScript, id int, loader bool) (sig, msg string) {
 	if nck == 0 && len(want) > 0 {
 		return "e2e:no-checkpoint", "data was applied but no checkpoint was stored"
 	}
+	// exact position: every source command (SELECT, PING, RPUSH) is forwarded, in order, on the sender's connection; a
+	// checkpoint stored in a batch carries the end position of the last source command forwarded up to and including
+	// that batch - not of a command that is still waiting (e.g. the SELECT whose arrival closed the batch)
+	sender := -1
+	for _, cm := range log {
+		if cm.Name == "multi" {
+			sender = cm.Conn
+			break
+		}
+	}
+	if sender >= 0 {
+		fwd := 0
+		synthetic := s.mode != "fresh" && firstDB != 0 // a resumed run first announces the recorded db itself
+		for _, cm := range log {
+			if cm.Conn != sender {
+				continue
+			}
+			switch {
+			case cm.Name == "select" || cm.Name == "ping" || cm.Name == "rpush":
+				if synthetic && cm.Name == "select" && fwd == 0 {
+					synthetic = false
+					continue
+				}
+				if fwd < len(s.cmds) && !strings.EqualFold(string(s.cmds[fwd][0]), cm.Name) {
+					return "e2e:data", fmt.Sprintf("forwarded command %d is %q, the source's command %d is %q", fwd, cm.Name, fwd, s.cmds[fwd][0])
+				}
+				fwd++
+			case cm.Name == "hset" && len(cm.Argv) == 4 && strings.HasSuffix(string(cm.Argv[2]), "-offset"):
+				off, _ := strconv.ParseInt(string(cm.Argv[3]), 10, 64)
+				wantOff := s.start
+				if fwd > 0 && fwd <= len(ends) {
+					wantOff = s.start + int64(ends[fwd-1])
+				}
+				if off != wantOff {
+					return "e2e:checkpoint-offset", fmt.Sprintf("a checkpoint with offset %d was stored after %d source commands had been forwarded; the stream position after those is %d (start %d, ends %v)", off, fwd, wantOff, s.start, ends)
+				}
+			}
+		}
+	}
 	if loader && len(want) > 0 {
 		// writer/reader agreement: the loader must read back the run id the sender ran under and the last stored offset
 		var lastOff int64 = -1
@@ -326,6 +375,15 @@ func c08E2EBatch(t *rapid.T) { e2eBatch(t, "C08") }
 // c14E2EBatch: the same end-to-end runs, judged only on writer/reader agreement of the checkpoint (C14).
 func c14E2EBatch(t *rapid.T) { e2eBatch(t, "C14") }
 
+// c04E2EBatch: the same end-to-end runs judged on what C04 states: data applied exactly once and every stored checkpoint
+// offset equal to the source position of the data applied with it, also when the run itself started from a checkpoint.
+func c04E2EBatch(t *rapid.T) { e2eBatch(t, "C04") }
+
+var e2eSigsOf = map[string][]string{
+	"C14": {"e2e:checkpoint-runid", "e2e:loader-"},
+	"C04": {"e2e:checkpoint-offset", "e2e:data", "e2e:no-checkpoint", "e2e:checkpoint-runid"},
+}
+
 func e2eBatch(t *rapid.T, prop string) {
 	o := &conf.Options
 	o.ResumeFromBreakPoint, o.Parallel, o.KeyExists, o.TargetDB = true, 1, "none", -1
@@ -337,9 +395,12 @@ func e2eBatch(t *rapid.T, prop string) {
 		scripts[i] = drawE2E(t)
 		if prop == "C14" && scripts[i].mode == "fresh" {
 			scripts[i].mode = "resume-fullresync"
-			if scripts[i].start == 0 {
-				scripts[i].start = 999
-			}
+		}
+		if prop == "C04" && scripts[i].mode == "fresh" && i%2 == 0 {
+			scripts[i].mode = "resume-continue"
+		}
+		if scripts[i].mode != "fresh" && scripts[i].start == 0 {
+			scripts[i].start = 999
 		}
 	}
 	type res struct{ sig, msg string }
@@ -357,8 +418,14 @@ func e2eBatch(t *rapid.T, prop string) {
 	wg.Wait()
 	dropLeftoverAborts()
 	for i, r := range outs {
-		if prop == "C14" && r.sig != "e2e:checkpoint-runid" && !strings.HasPrefix(r.sig, "e2e:loader-") {
-			r.sig = "" // everything else is C08's to judge
+		if own, ok := e2eSigsOf[prop]; ok && r.sig != "" {
+			mine := false
+			for _, p := range own {
+				mine = mine || strings.HasPrefix(r.sig, p)
+			}
+			if !mine {
+				r.sig = "" // everything else is C08's to judge
+			}
 		}
 		if r.sig != "" {
 			if violation(t, prop, r.sig, "sender.count=%d; %s: %s", o.SenderCount, scripts[i], r.msg) {
@@ -374,3 +441,4 @@ func e2eBatch(t *rapid.T, prop string) {
 
 func TestC08EndToEnd(t *testing.T) { rapid.Check(t, c08E2EBatch) }
 func TestC14EndToEnd(t *testing.T) { rapid.Check(t, c14E2EBatch) }
+func TestC04EndToEnd(t *testing.T) { rapid.Check(t, c04E2EBatch) }
